@@ -176,6 +176,67 @@ fn late_originals_case(seed: u64, trace: bool) -> super::CaseOut {
     out
 }
 
+/// Stream state recycling: tiny stream-count limits and many short streams one after the other,
+/// half of them stopped or reset, so that every new stream inherits the freed state of an
+/// earlier one.
+fn recycle_case(seed: u64, trace: bool) -> super::CaseOut {
+    let mut r = crate::util::Rng::new(seed ^ 0xC01C);
+    let mut k = Knobs::default();
+    k.ops = false;
+    k.datagrams = false;
+    k.mtu_changes = false;
+    k.max_streams = 2;
+    k.max_stream_len = 3000;
+    k.idle_off = true;
+    k.fault_window_ns = Some(5_000_000_000);
+    let mut h = Honest::random(seed, &k);
+    h.net.loss_pm = h.net.loss_pm.min(50);
+    h.net.corrupt_pm = 0;
+    for t in h.cli_t.iter_mut().chain([&mut h.srv_t]) {
+        t.pad_to_mtu = false;
+        t.max_bidi = *r.pick(&[1, 1, 2, 3]);
+        t.max_uni = *r.pick(&[1, 1, 2, 3]);
+        t.max_bps = None;
+    }
+    let n = 8 + r.usize(25);
+    for a in h.cli_app.iter_mut().chain([&mut h.srv_app]) {
+        a.stop_pct = *r.pick(&[30, 60]);
+        a.respond_max = *r.pick(&[0, 10, 500]);
+        a.plans.clear();
+    }
+    for _ in 0..n {
+        let len = *r.pick(&[0u64, 1, 50, 700, 2500]);
+        let end = if r.chance(25) { crate::app::EndMode::ResetAt { at: r.below(len + 1), code: r.below(50) } } else { crate::app::EndMode::Finish };
+        let plan = crate::app::StreamPlan { bidi: r.bool(), len, chunk: *r.pick(&[100, 1200]), use_write_chunks: false, end, prio: 0 };
+        if r.chance(70) {
+            h.cli_app[0].plans.push(plan);
+        } else {
+            h.srv_app.plans.push(plan);
+        }
+    }
+    let mut ran = run_honest(&h, trace, 80_000, 900_000_000_000);
+    if matches!(ran.end, RunEnd::Quiescent) && !any_lost(&ran.w) {
+        let missing: Vec<String> = ran.w.led.flows.iter().filter(|(_, f)| f.must_complete() && !f.complete()).map(|(k, f)| format!("{k:?} written={} delivered={} eos={}", f.written, f.delivered.total(), f.eos)).collect();
+        if !missing.is_empty() {
+            ran.w.led.violate("C01", format!("world quiescent with live connections but finished streams undelivered: {}", missing.join("; ")));
+        }
+    }
+    let mut out = base_out(&h, &mut ran, trace);
+    // a stream whose data can never be read although nobody stopped or reset it is a delivery
+    // failure, whatever else it is
+    for v in out.viol.iter_mut() {
+        if v.prop == "C11" && v.msg.contains("read() -> ClosedStream before any terminal outcome") {
+            v.prop = "C01";
+            v.msg = format!("written data is unobtainable: {}", v.msg);
+        }
+    }
+    out.nontrivial = out.cnt.get("c01.bytes") > 0 && out.cnt.get("app.stop") > 0;
+    if matches!(ran.end, RunEnd::StepCap | RunEnd::TimeCap) {
+        out.inconclusive = Some(format!("{:?} before completion", ran.end));
+    }
+    out
+}
+
 pub fn run(ctx: &Ctx) -> i32 {
     let t = std::time::Instant::now();
     let mut rep = Report::default();
@@ -185,6 +246,8 @@ pub fn run(ctx: &Ctx) -> i32 {
     run_group(ctx, &mut rep, &g, |_, seed, trace| dup_switch_case(seed, trace));
     let g = Group { name: "late-originals", cases: ctx.tier.pick(1200, 60_000), budget_s: ctx.tier.pick(20.0, 200.0), exhaustive: false };
     run_group(ctx, &mut rep, &g, |_, seed, trace| late_originals_case(seed, trace));
+    let g = Group { name: "recycle", cases: ctx.tier.pick(800, 40_000), budget_s: ctx.tier.pick(15.0, 150.0), exhaustive: false };
+    run_group(ctx, &mut rep, &g, |_, seed, trace| recycle_case(seed, trace));
     #[cfg(feature = "real")]
     {
         let g = Group { name: "honest-real", cases: ctx.tier.pick(100, 4_000), budget_s: ctx.tier.pick(25.0, 150.0), exhaustive: false };
